@@ -370,9 +370,48 @@ package db
 //@   modifies *
 // (C01: "a continuous or long-poll request eventually delivers every change; resuming from any handed-out position")
 //@   also C01: low-is-oldest-skipped-1, stamped-low, low-restored-parked, low-restored-wait, low-restored-cachewait, low-restored
+// (C13) a revocation row whose revocation sequence is at or below the cached sequence is never dropped by the stable-sequence filter
+//@   also C13: revocation-passes-stable-filter
+//@   before[revocation-passes-stable-filter] call DebugfCtx#6 $2 == "Found sequence later than stable sequence: stable:[%d] entry:[%d] (%s)" && !(minEntry.Revoked && minEntry.Seq.TriggeredBy <= currentCachedSequence)
 //@   before[low-is-oldest-skipped-1] call DebugfCtx#7 $2 == "MultiChangesFeed sending %+v %s" && lowSequence == ite(callres(getOldestSkippedSequence, 1, 0) > 0, callres(getOldestSkippedSequence, 1, 0) - 1, 0)
 //@   before[stamped-low]            call DebugfCtx#7 minEntry.Seq.LowSeq == lowSequence
 //@   before[low-restored-parked]    call DebugfCtx#3 $2 == "MultiChangesFeed waiting... %s" && (!useLateSequenceFeeds ==> options.Since.LowSeq == requestLowSeq)
 //@   before[low-restored-wait]      call Wait#1 !useLateSequenceFeeds ==> options.Since.LowSeq == requestLowSeq
 //@   before[low-restored-cachewait] call waitForCacheUpdate#1 !useLateSequenceFeeds ==> options.Since.LowSeq == requestLowSeq
 //@   loop 8 invariant[low-restored] !useLateSequenceFeeds ==> options.Since.LowSeq == requestLowSeq
+
+// ---- abandoning skipped sequences (CleanSkippedSequenceQueue, background task) ----
+// Abandonment removes sequences from the skipped set WITHOUT delivery: it is the documented exception to the
+// buffering invariant (c08Inv is not claimed to survive it). What the property needs is that it only happens to
+// sequences that have been missing for the configured time:
+//   only-overdue               SkippedSequenceCompact removes only sequences first skipped at least maxWait seconds ago;
+//   abandon-threshold-seconds  the maxWait it is given is CacheSkippedSeqMaxWait in whole SECONDS, the unit of the
+//                              node timestamps (time.Now().Unix()). secondsOf / time.Duration.Seconds: /verif/trusted/c12_auth.spec.
+//@ func SkippedSequenceSkiplist.SkippedSequenceCompact
+//@   requires s != nil && s.list != nil
+//@   modifies c08skipped
+//@   ensures[shrinks]      subset(c08skipped, old(c08skipped))
+//@   ensures[only-overdue] forall q uint64 :: {q in c08skipped} old(q in c08skipped) && !(q in c08skipped) ==> mi(timeNow) - mi(c08skippedAt(q)) >= mi(maxWait)
+
+//@ func changeCache.CleanSkippedSequenceQueue
+//@   requires c08WF(c)
+//@   modifies c08skipped
+//@   before[abandon-threshold-seconds] call SkippedSequenceCompact#1 $2 == int64(secondsOf(int64(c.options.CacheSkippedSeqMaxWait)))
+//@   ensures[shrinks]   subset(c08skipped, old(c08skipped)) && c08delivered == old(c08delivered) && c08pending == old(c08pending) && c.nextSequence == old(c.nextSequence)
+
+// ---- the channel cache side of a late arrival (channelCacheImpl.AddToCache) ----
+// The late-sequence log of a single-channel cache is the only way a RUNNING continuous feed learns about a skipped
+// sequence that turns up later. So for an entry marked as a late arrival (change.Skipped) every active channel cache
+// the entry is handed to (each channel of the entry, and the star channel) must also get AddLateSequence(change):
+// unconditionally, whether or not addToCache stored the entry (an entry older than the cache's validFrom is not stored).
+// Path clauses (modifies *, every callee uncontracted here; singleChannelCacheImpl.addToCache keeps its C01 contract
+// for C01 only): called(X, n) is the path condition of the n-th call site of X, #1 = in the loop over the entry's
+// channels, #2 = star channel. The loop "invariant" is trivially true at the loop head (no call on record yet) and
+// is a real obligation at the end of every iteration. change.Skipped is read in the state the code reads it in.
+//@ func channelCacheImpl.AddToCache
+//@   only-contracts none
+//@   modifies *
+//@   before[late-same-cache]  call AddLateSequence#1 $0 == callres(getActiveChannelCache, 1, 0) && $1 == change
+//@   before[late-same-cache-star] call AddLateSequence#2 $0 == callres(getActiveChannelCache, 2, 0) && $1 == change
+//@   loop 1 invariant[late-logged]  change.Skipped && called(addToCache, 1) ==> called(AddLateSequence, 1)
+//@   before[late-logged-star] call updateHighCacheSequence#1 change.Skipped && called(addToCache, 2) ==> called(AddLateSequence, 2)
